@@ -56,69 +56,51 @@ def run(chk):
     sql = repo.mod("backend.sql")
     scfg = sib.cfgs["sql"]
 
-    # ---- R2 filter placement
+    # ---- R2 filter placement (form-agnostic: if statement, conditional expression or an aliased target list)
+    from ..flags import filter_destinations, is_conc
+
     items = Slicer(sym, sql, scfg.subject, sym.cls("Filter")).slice(scfg.func.body)
-    cond = next((it for it in items if isinstance(it, Cond)), None)
-    if cond is None:
-        chk.fail("R2", sql, scfg.func, "Filter: after summarize -> query.having, before -> query.where",
-                 "the SQL Filter branch does not distinguish a grouped SELECT: a filter after summarize must go to HAVING, before it to WHERE")  # fmt: skip
-
-        class _Dummy:
-            test = ast.parse("None").body[0].value
-            body: list = []
-            orelse: list = []
-            node = scfg.func
-
-        cond = _Dummy()
-    def targets(block):
-        return {norm(c.func.value) for st in block for c in calls_in(st) if isinstance(c.func, ast.Attribute) and c.func.attr == "extend"}
-
+    f_stmts = [it.node if isinstance(it, Cond) else it for it in items]
+    qname = scfg.outputs["SEL"].split(".")[0]
     # what the Summarize slice leaves in the query state *for every grouping* (also none / only constant columns):
     # a field is definitely truthy only if it is assigned a truthy constant; fields filled by extend()/+= from the
     # grouping columns are empty for an ungrouped summarize
-    qname = scfg.outputs["SEL"].split(".")[0]
     s_items = Slicer(sym, sql, scfg.subject, sym.cls("Summarize")).slice(scfg.func.body)
-    definite = {}
-    for st, _c in flat(s_items):
-        if isinstance(st, ast.Assign) and len(st.targets) == 1 and isinstance(st.targets[0], ast.Attribute) and norm(st.targets[0].value) == qname:
-            v = st.value
-            if isinstance(v, ast.Constant) and v.value:
-                definite[f"{qname}.{st.targets[0].attr}"] = v.value
-            else:
-                definite.pop(f"{qname}.{st.targets[0].attr}", None)
-    # fresh query state (before any summarize): dataclass defaults
     qcls = sym.resolve_class(sql, "Query")
     fresh = {}
     for st in qcls.node.body:
-        if isinstance(st, ast.AnnAssign) and isinstance(st.target, ast.Name):
-            if st.value is None:
-                continue
+        if isinstance(st, ast.AnnAssign) and isinstance(st.target, ast.Name) and st.value is not None:
             v = st.value
             if isinstance(v, ast.Constant):
                 fresh[f"{qname}.{st.target.id}"] = v.value
-            elif "default_factory=list" in norm(v).replace(" ", "") or "default_factory=dict" in norm(v).replace(" ", "") or "default_factory=set" in norm(v).replace(" ", ""):
+            elif any(x in norm(v).replace(" ", "") for x in ("default_factory=list", "default_factory=dict", "default_factory=set")):
                 fresh[f"{qname}.{st.target.id}"] = []
-    from ..flags import is_conc
-
-    def decide(binding):
-        try:
-            return Evaluator(dict(binding)).ev(cond.test, dict(binding))
-        except Unsupported:
-            return Sym("?")
-
-    after = decide(definite)
-    before = decide(fresh)
-    placed = targets(cond.body) == {f"{qname}.having"} and targets(cond.orelse) == {f"{qname}.where"}
-    chk.ob("R2", sql, cond.node, "Filter: after summarize -> query.having, before -> query.where", placed,
-           f"SQL filter placement: test `{norm(cond.test)}`, true -> {sorted(targets(cond.body))}, false -> "
-           f"{sorted(targets(cond.orelse))}; a filter after summarize must act on the aggregated rows (HAVING), before it on the input rows (WHERE)")  # fmt: skip
-    chk.ob("R2", sql, cond.node, "Filter placement test is true after every summarize (grouped, ungrouped, constant grouping columns)",
-           is_conc(after) and bool(after) is True,
-           f"the test `{norm(cond.test)}` that sends a filter to HAVING is not decided by what the Summarize slice always sets "
-           f"({sorted(definite) or 'nothing'}): after an ungrouped summarize (or one grouped by constants only) it is false, the predicate on "
-           "the aggregate is put into WHERE and the statement is invalid / filters the input rows")  # fmt: skip
-    chk.ob("R2", sql, cond.node, "Filter placement test is false on a fresh query", is_conc(before) and not before,
-           f"the test `{norm(cond.test)}` is not false for a query without summarize: plain filters would go to HAVING")  # fmt: skip
+    after = dict(fresh)
+    definite = set()
+    for st, _c in flat(s_items):
+        if isinstance(st, ast.Assign) and len(st.targets) == 1 and isinstance(st.targets[0], ast.Attribute) and norm(st.targets[0].value) == qname:
+            fld = f"{qname}.{st.targets[0].attr}"
+            if isinstance(st.value, ast.Constant):
+                after[fld] = st.value.value
+                if st.value.value:
+                    definite.add(fld)
+            elif isinstance(st.value, (ast.List, ast.Dict)) and not (st.value.elts if isinstance(st.value, ast.List) else st.value.keys):
+                after[fld] = []
+    # (fields the Summarize slice fills from the grouping columns stay at their empty default: the ungrouped case)
+    try:
+        d_after = filter_destinations(f_stmts, qname, scfg.subject, after)
+        d_before = filter_destinations(f_stmts, qname, scfg.subject, fresh)
+    except Unsupported as u:
+        raise AnalysisError(f"C04/R2: cannot evaluate the SQL Filter slice: {u}") from u
+    node_f = f_stmts[0] if f_stmts else scfg.func
+    chk.ob("R2", sql, node_f, "Filter after summarize (grouped, ungrouped, constant grouping columns) -> query.having",
+           bool(d_after) and all(d == {f"{qname}.having"} for d in d_after),
+           f"after a summarize without (non-constant) grouping columns the SQL filter puts its predicates into {sorted(set().union(*d_after)) if d_after else '?'} "
+           f"(the Summarize slice only guarantees {sorted(definite) or 'nothing'}): a predicate on an aggregate lands in WHERE and the statement is "
+           "invalid / filters the input rows; it must go to HAVING")  # fmt: skip
+    chk.ob("R2", sql, node_f, "Filter on a fresh query -> query.where",
+           bool(d_before) and all(d == {f"{qname}.where"} for d in d_before),
+           f"a filter before any summarize puts its predicates into {sorted(set().union(*d_before)) if d_before else '?'} instead of WHERE")  # fmt: skip
     # compile_query, one-hot
     cq = sql.func("SqlImpl.compile_query")
     qparam = cq.args.args[2].arg
@@ -248,15 +230,29 @@ def run(chk):
                "the wrapper no longer replaces the aggregate of a group without non-null input by null")  # fmt: skip
     pcfg = sib.cfgs["polars"]
     items = Slicer(sym, pol, pcfg.subject, sym.cls("Summarize")).slice(pcfg.func.body)
-    gcond = None
-    for it in items:
-        if isinstance(it, Cond) and norm(it.test) == "group_by":
-            gcond = it
-    ok = False
-    if gcond is not None:
-        tb = " ".join(norm(s) for s in gcond.body)
-        eb = " ".join(norm(s) for s in gcond.orelse)
-        ok = "df.group_by(*group_by).agg(**aggregations)" in tb and "df.select(**aggregations)" in eb
+    # form-agnostic (if statement or conditional expression): evaluate the slice for grouped / ungrouped
+    raw = [it.node if isinstance(it, Cond) else it for it in items]
+    # the flag under evaluation is the list of grouping names: its own definition is replaced by the valuation
+    raw = [s_ for s_ in raw if not (isinstance(s_, ast.Assign) and any(norm(t_) == "group_by" for t_ in s_.targets))]
+    ok = True
+    seen_any = False
+    for grouped in (True, False):
+        ev = Evaluator({"group_by": [Sym("g")] if grouped else []})
+        ev.skip_loops = True
+        ev.lenient = True
+        try:
+            outs = ev.run_block(raw)
+        except Unsupported as u:
+            raise AnalysisError(f"C04/R4: cannot evaluate the Polars Summarize slice: {u}") from u
+        for _ret, env, _d in outs:
+            tags = all_tags(env.get("df")) if env.get("df") is not None else frozenset()
+            calls = {t[1] for t in tags if t[0] == "call"}
+            seen_any = True
+            if grouped:
+                ok = ok and "group_by" in calls and "agg" in calls
+            else:
+                ok = ok and "select" in calls and "group_by" not in calls
+    ok = ok and seen_any
     chk.ob("R4", pol, pcfg.func, "polars Summarize: group_by(*group_by).agg(..) if grouped else select(..)", ok,
            "Polars summarize no longer aggregates per group / to a single row without grouping")  # fmt: skip
     src = " ".join(norm(st) for st, _ in flat(items))
